@@ -12,7 +12,7 @@ RULE = ("type generator (structs nested through pointers, slices, arrays, maps, 
         "reflect.StructOf, x a configuration mentioning a random subset of the fields with valid values or one value violating a "
         "validator / of the wrong kind, x a pre-filled target (zero, valid, or invalid at a random position). Oracle (Lean): when Unpack "
         "returns nil, recValidate on the populated target - every validator of every reachable field, through pointers, slices, arrays, "
-        "maps - reports nothing; success/failure and the stored values must equal the model's. Non-trivial: the type declares at least "
+        "maps - reports nothing; success/failure and the stored values must equal the model's. Plus: null settings inside lists and maps for element types that have to be created (pointers to arrays / slices / structs); two validator namespaces (ValidatorTag) on one type in one process; named slice / map types with Validate (catalogue). Non-trivial: the type declares at least "
         "one validator. Distinct by (type signature, which fields are mentioned, pre-fill class, outcome).")
 TRUSTED_BASE = ["Lean 4 kernel", "Model/Unpack.lean transcribes reify.go/validator.go over the type universe Ty (differential check)",
                 "reflect's behaviour (kinds, addressability, Convert) as modelled", "Stdlib parameters (ParseFloat, ParseDuration, regexp)",
